@@ -73,7 +73,7 @@ theorem C18_accounted_iff_accepted (n : Net) (k : Nat) (fromA : Bool) (s : Nat) 
       unfold runEv
       simp only [hl, hS, hup, hadm, Bool.not_true, Bool.false_eq_true, if_false, if_true]
       rw [carriedOn_append]
-      simp [carriedOn, Rec.carriedBy]
+      simp [carriedOn, Rec.carriedBy, Verdict.loaded]
     · unfold runEv
       simp only [hl, hS, hup, hadm, Bool.not_true, Bool.false_eq_true, if_false, if_true]
       exact ⟨_, List.mem_append_right _ (List.mem_singleton.mpr rfl), rfl, rfl, rfl, rfl⟩
